@@ -117,7 +117,7 @@ BIGARR = A(*[I(i) for i in range(300)])
 POOL_CORE = [NULL, TRUE, FALSE, I(0), I(1), I(-1), B(0), B(-1), I(ISIZE_MAX), I(ISIZE_MIN), B(2 ** 63), B(10 ** 30), F(0.5), NEG_ZERO, NAN, POS_INF, NEG_INF,
              F(1e308), F(9.3e18), I(2 ** 31), S(""), S("a"), S("é€\U0001F600"), S(b"\xff\xc3"), Y(b"\x00\xff"), A(), A(I(1), I(2), I(3)), A(S("a"), I(0)), O(), O((S("a"), I(1)))]
 POOL_MORE = [B(-2 ** 63 - 1), F(5e-324), F(-9.3e18), D("1e1000"), D("-0.0"), I(-2 ** 31 - 1), I(2 ** 32), I(255), I(256), I(-256), F(1e19), F(-1e19), F(2.5), I(1 << 52), I(-(1 << 53)),
-             S("a" * 300), S("%Y-%m-%dT%H:%M:%SZ"), S("%"), S("%Q %"), S("(?<x>a)|["), S("a*"), S("2015-03-05T23:51:47Z"), S("g"), S("gx"), S("1e1000"), S("-"), S("\x00"), S("9" * 400), S("nan"),
+             S("a" * 300), S("%Y-%m-%dT%H:%M:%SZ"), S("%"), S("%Q %"), S("(?<x>a)|["), S("a*"), S("(?:(a)|(b))*"), S("ba"), S("2015-03-05T23:51:47Z"), S("g"), S("gx"), S("1e1000"), S("-"), S("\x00"), S("9" * 400), S("nan"),
              S("[1,2"), S("{\"a\":"), Y(b""), Y(b"\xf0\x9f"), A(A()), A(NULL), A(I(-1)), A(I(ISIZE_MIN)), A(I(ISIZE_MAX), I(ISIZE_MAX)), A(S("a"), S("b")), A(O((S("start"), I(1)), (S("end"), NULL))),
              O((S("start"), I(-1)), (S("end"), I(ISIZE_MIN))), O((I(1), I(2))), O((S("key"), S("k")), (S("value"), I(1))), A(O((S("key"), NULL), (S("value"), I(1)))), DEEP, BIGARR,
              A(I(2015), I(2), I(5), I(23), I(51), I(47), I(4), I(63)), A(F(1e18), I(0), I(0), I(0), I(0), I(0), I(0), I(0)), A(I(ISIZE_MAX), I(ISIZE_MAX), I(ISIZE_MAX), I(0), I(0), I(0)),
@@ -325,13 +325,18 @@ def custom(ctx):
     cs = callables()
     jobs = []
     for text, nv, nf, label in cs:
-        fcombos = list(itertools.product(FPOOL if nv > 0 else FPOOL[:-1], repeat=nf))
+        fcombos = list(itertools.product(FPOOL, repeat=nf))
         if len(fcombos) > 12:
-            fcombos = random.Random(seed + len(text)).sample(fcombos, 12)
+            # keep the combinations that hand a pool value on as a filter argument (regular expressions, flags, keys, ...)
+            withvar = [fc for fc in fcombos if "$a0" in fc]
+            rnd = random.Random(seed + len(text))
+            fcombos = rnd.sample(withvar, min(6, len(withvar))) + rnd.sample(fcombos, 6)
+        nv_decl = nv
         for fc in fcombos:
             t = text
             for i, f in enumerate(fc):
                 t = t.replace("@F%d" % i, f)
+            nv = max(nv_decl, 1) if "$a0" in fc else nv_decl     # a filter argument may be a value of the pool
             use = pool1 if nv <= 1 else pool
             total = len(use) ** (1 + nv)
             cap = 60000 if tier == "quick" else 400000
